@@ -78,3 +78,146 @@ contract(
     modifies=['df_features'],
     result=_frame_plus_is_burst,
 )
+
+
+# ------------------------------------------------------------------------------------------------
+# check_min_burst_cycles: proof script (C08).  Every `have` / `induct` below is an obligation discharged by the solver;
+# the only statement taken on trust is the definition of the spec function minrun (unfold_minrun).
+# ------------------------------------------------------------------------------------------------
+from vf.engine import zbool as _zb, to_int as _ti   # noqa: E402
+
+
+def _facts(P):
+    E, env = P.E, P.env
+    b, d, tr = env['is_burst'], env['diff'], env['transitions']
+    n = b.n
+    g, cnt = tr.meta['g'], tr.meta['cnt']
+    t = tr.n
+    bz = lambda j: _zb(E.rd(b, j))
+    bp = lambda j: z3.And(0 <= j, j < n, bz(j))
+    return E, env, b, d, tr, n, g, cnt, t, bz, bp
+
+
+def _after_transitions(P):
+    E, env, b, d, tr, n, g, cnt, t, bz, bp = _facts(P)
+    i, j, k = z3.Ints('pi pj pk')
+    # parity: the number of transitions before position i is even exactly when the (padded) array is False at i-1
+    P.induct('parity', lambda x: (cnt(x) % 2 == 0) == z3.Not(bp(x - 1)), z3.IntVal(0), n + 1)
+    P.have('parity-at-end', (cnt(n + 1) % 2 == 0) == z3.Not(bp(n)))
+    P.have('t-even', t % 2 == 0)
+    # cnt is monotone
+    P.induct('mono', lambda x: z3.ForAll([i], z3.Implies(z3.And(0 <= i, i <= x), cnt(i) <= cnt(x))), z3.IntVal(0), n + 1)
+    P.have('cnt-after-g', z3.ForAll([k], z3.Implies(z3.And(0 <= k, k < t), cnt(g(k) + 1) == k + 1), patterns=[g(k)]))
+    P.have('cnt-le-t', z3.ForAll([i], z3.Implies(z3.And(0 <= i, i <= n + 1), z3.And(0 <= cnt(i), cnt(i) <= t)), patterns=[cnt(i)]))
+    # position of the k-th transition relative to i
+    P.have('g-vs-cnt-1', z3.ForAll([k, i], z3.Implies(z3.And(0 <= k, k < t, 0 <= i, i <= n + 1, g(k) < i), k < cnt(i)),
+                                   patterns=[z3.MultiPattern(g(k), cnt(i))]))
+    P.have('g-vs-cnt-2', z3.ForAll([k, i], z3.Implies(z3.And(0 <= k, k < t, 0 <= i, i <= n + 1, k < cnt(i)), g(k) < i),
+                                   patterns=[z3.MultiPattern(g(k), cnt(i))]))
+    # a True position lies in the run between transitions cnt(j+1)-1 (on) and cnt(j+1) (off)
+    P.have('true-odd', z3.ForAll([j], z3.Implies(z3.And(0 <= j, j < n, bz(j)),
+                                                 z3.And(cnt(j + 1) % 2 == 1, 1 <= cnt(j + 1), cnt(j + 1) < t)),
+                                 patterns=[cnt(j + 1)]))
+    P.have('true-in-run', z3.ForAll([j], z3.Implies(z3.And(0 <= j, j < n, bz(j)),
+                                                    z3.And(g(cnt(j + 1) - 1) <= j, j < g(cnt(j + 1)))),
+                                    patterns=[cnt(j + 1)]))
+    # between two consecutive transitions the transition count is constant ...
+    P.have('run-interior-cnt', z3.ForAll([k, j], z3.Implies(z3.And(0 <= k, k + 1 < t, g(k) <= j, j < g(k + 1)),
+                                                            z3.And(0 <= j, j <= n, cnt(j + 1) == k + 1)),
+                                         patterns=[z3.MultiPattern(g(k), cnt(j + 1))]))
+    # ... so after an even transition everything up to the next transition is True
+    P.have('run-interior-true', z3.ForAll([k, j], z3.Implies(z3.And(0 <= k, k + 1 < t, k % 2 == 0, g(k) <= j, j < g(k + 1)),
+                                                             z3.And(j < n, bz(j))),
+                                          patterns=[z3.MultiPattern(g(k), cnt(j + 1))]))
+    # runs are maximal
+    P.have('run-left-end', z3.ForAll([k], z3.Implies(z3.And(0 <= k, k < t, k % 2 == 0), z3.Not(bp(g(k) - 1))), patterns=[g(k)]))
+    P.have('run-right-end', z3.ForAll([k], z3.Implies(z3.And(0 <= k, k < t, k % 2 == 1), z3.And(g(k) <= n, z3.Not(bp(g(k))))),
+                                      patterns=[g(k)]))
+
+
+def _before_return(P):
+    E, env = P.E, P.env
+    if 'transitions' not in env:
+        return                          # the early return for an empty array
+    E, env, b, d, tr, n, g, cnt, t, bz, bp = _facts(P)
+    from .specs import MR, minrun_def
+    m = _ti(env['min_n_cycles']) if not isinstance(env['min_n_cycles'], int) else z3.IntVal(env['min_n_cycles'])
+    ons, offs, too_short = env['ons'], env['offs'], env['too_short']
+    son, soff = env['_zip0'], env['_zip1']
+    Q = son.n
+    cm = E.st.ghost[[k for k in E.st.ghost if isinstance(k, tuple) and k and k[0] == 'cmap' and k[1] == too_short.ident][0]]
+    mQ, G, cntG = cm
+    i, j, k, p, r = z3.Ints('qi qj qk qp qr')
+    old_b = lambda x: _zb(E.st.entry_heap[b.ident](x))
+    cur = lambda x: _zb(E.rd(b, x))
+    ON = lambda x: _ti(E.rd(ons, x))
+    OFF = lambda x: _ti(E.rd(offs, x))
+    SON = lambda x: _ti(E.rd(son, x))
+    SOFF = lambda x: _ti(E.rd(soff, x))
+    SHORT = lambda x: _zb(E.rd(too_short, x))
+    half = t / 2
+    P.have('ons-offs-are-transitions', z3.ForAll([r], z3.Implies(z3.And(0 <= r, r < half),
+                                                                 z3.And(ON(r) == g(2 * r), OFF(r) == g(2 * r + 1)))))
+    P.have('short-def', z3.ForAll([r], z3.Implies(z3.And(0 <= r, r < half), SHORT(r) == (OFF(r) - ON(r) < m))))
+    P.have('selected-are-short', z3.ForAll([p], z3.Implies(z3.And(0 <= p, p < Q),
+                                                           z3.And(0 <= G(p), G(p) < half, SHORT(G(p)), SON(p) == ON(G(p)),
+                                                                  SOFF(p) == OFF(G(p)))), patterns=[G(p)]))
+    P.have('short-are-selected', z3.ForAll([r], z3.Implies(z3.And(0 <= r, r < half, SHORT(r)),
+                                                           z3.And(0 <= cntG(r), cntG(r) < Q, G(cntG(r)) == r)),
+                                           patterns=[cntG(r)]))
+    # the run of a True position j is r(j) = (cnt(j+1) - 1) / 2
+    RUN = lambda x: (cnt(x + 1) - 1) / 2
+    P.have('run-of-true', z3.ForAll([j], z3.Implies(z3.And(0 <= j, j < n, old_b(j)),
+                                                    z3.And(0 <= RUN(j), RUN(j) < half, ON(RUN(j)) <= j, j < OFF(RUN(j)))),
+                                    patterns=[cnt(j + 1)]))
+    P.have('covering-run-is-own-run', z3.ForAll([r, j], z3.Implies(z3.And(0 <= r, r < half, ON(r) <= j, j < OFF(r)),
+                                                                   z3.And(0 <= j, j < n, old_b(j), RUN(j) == r)),
+                                                ))
+    # cleared exactly when the own run is too short
+    P.have('cleared-iff-short', z3.ForAll([j], z3.Implies(z3.And(0 <= j, j < n, old_b(j)),
+                                                          cur(j) == z3.Not(SHORT(RUN(j)))), patterns=[cnt(j + 1)]))
+    P.have('false-stays-false', z3.ForAll([j], z3.Implies(z3.And(0 <= j, j < n, z3.Not(old_b(j))), z3.Not(cur(j)))))
+    # the definition of the spec function, at this array / length / count
+    B0 = E.mat(_frozen_entry(E, b))
+    E.assumptions_quant(z3.ForAll([i], MR(B0, n, m, i) == minrun_def(B0, n, m, i), patterns=[MR(B0, n, m, i)]))
+    # long run => its own interval is the witness window
+    P.have('long-run-kept', z3.ForAll([j], z3.Implies(z3.And(0 <= j, j < n, old_b(j), z3.Not(SHORT(RUN(j)))), MR(B0, n, m, j)),
+                                      patterns=[cnt(j + 1)]))
+    # any True window around j lies inside j's run, so a window of length >= m makes the run long
+    a0, c0 = z3.Ints('qa qc')
+    P.have('window-inside-run', z3.ForAll([j, a0, c0], z3.Implies(
+        z3.And(0 <= a0, a0 <= j, j < c0, c0 <= n, old_b(j),
+               z3.ForAll([k], z3.Implies(z3.And(a0 <= k, k < c0), z3.Select(B0, k)))),
+        z3.And(ON(RUN(j)) <= a0, c0 <= OFF(RUN(j))))))
+    P.have('kept-only-if-long', z3.ForAll([j], z3.Implies(z3.And(0 <= j, j < n, MR(B0, n, m, j)),
+                                                          z3.And(old_b(j), z3.Not(SHORT(RUN(j))))), patterns=[MR(B0, n, m, j)]))
+
+
+def _frozen_entry(E, b):
+    from vf.spec import _freeze
+    with E.entry_view():
+        f = _freeze(E, b)
+    E.st.heap.setdefault(f.ident, E.st.entry_heap[b.ident])
+    return f
+
+
+contract(
+    'bycycle.burst.utils.check_min_burst_cycles',
+    params={'is_burst': ('arr', BOOL), 'min_n_cycles': INT},
+    requires=[],
+    raises={'ValueError': "len(is_burst) > 0 and min_n_cycles < 0"},
+    ensures=[
+        "result is is_burst",
+        "len(result) == len(old(is_burst))",
+        "forall(i, 0 <= i < len(result), result[i] == minrun(old(is_burst), min_n_cycles, i))",
+    ],
+    modifies=['is_burst'],
+    result=_same_array_havoc('is_burst'),
+    proof={('after_assign', 'transitions'): _after_transitions, ('before_return',): _before_return},
+    loops={1: dict(index='q', invariant=[
+        "len(is_burst) == len(old(is_burst))",
+        # cleared so far: exactly the positions inside one of the first q too-short runs
+        "forall(j, 0 <= j < len(is_burst), is_burst[j] == (old(is_burst)[j] and "
+        "not exists(p, 0 <= p and p < q and _zip0[p] <= j and j < _zip1[p])))",
+    ])},
+)
